@@ -2,6 +2,7 @@ package h
 
 import (
 	"github.com/cinar/indicator/v2/helper"
+	"github.com/cinar/indicator/v2/trend"
 	"verif/harness/vrt"
 )
 
@@ -445,3 +446,36 @@ func bstStep[T helper.Number](size, shape, op int) {
 func H_C17_BstStepI8(size, shape, op int)  { bstStep[int8](size, shape, op) }
 func H_C17_BstStepI64(size, shape, op int) { bstStep[int64](size, shape, op) }
 func H_C17_BstStepF64(size, shape, op int) { bstStep[float64](size, shape, op) } // fp mode
+
+// H_C17_MovingInt: the search tree's main client over an INTEGER element type:
+// trend.MovingMax / MovingMin[int8] on arbitrary int8 inputs (the extremes of the
+// type included) equal the window maximum / minimum.
+func H_C17_MovingInt(period, n, isMin int) {
+	in := make([]int8, n)
+	for i := range in {
+		in[i] = vrt.Int8("x", i)
+	}
+	var got []int8
+	if isMin == 1 {
+		got = Collect1(trend.NewMovingMinWithPeriod[int8](period).Compute(Src(in, 0)))
+	} else {
+		got = Collect1(trend.NewMovingMaxWithPeriod[int8](period).Compute(Src(in, 0)))
+	}
+	want := n - period + 1
+	if want < 0 {
+		want = 0
+	}
+	vrt.Assert("len", len(got) == want)
+	for k := range got {
+		m := in[k]
+		for j := k + 1; j < k+period && j < n; j++ {
+			if isMin == 1 {
+				m = vrt.Ite(in[j] < m, in[j], m)
+			} else {
+				m = vrt.Ite(in[j] > m, in[j], m)
+			}
+		}
+		vrt.AssertAt("window_extreme", k, got[k] == m)
+	}
+	vrt.Reach("end")
+}
